@@ -414,8 +414,13 @@ class Unit:
         raise last_err
 
     def do_fn(self, kv, sections, vacuity=False):
-        text, prefix = self.get_fn_text(kv)
         label = kv.get('label') or ((kv.get('in', '') + '::' if kv.get('in') else '') + kv['name'])
+        try:
+            text, prefix = self.get_fn_text(kv)
+        except LostAnchor as ex:
+            # the function itself is gone (removed / renamed / moved): the caller runs its paired search before giving up
+            ex.missing_label = label
+            raise
         self.items.append(dict(label='fn ' + label, file=kv['file'], digest=X.digest(text)))
         self.rules.hit('R-attr', len(re.findall(r'#\[|\bpub\b', X.blank_comments(prefix))))
         rules = set(filter(None, re.split(r',(?=R-)', kv.get('rules', ''))))
@@ -534,7 +539,28 @@ class Unit:
                     raise LostAnchor('fn %s: closure header %r (#%d) not found' % (label, anchor, nth))
                 start = pos + 1
             new_header = '\n'.join(sections[key])
-            body = body[:pos] + new_header + body[pos + len(anchor):]
+            # R-closurebrace: an annotated closure needs a block body; a bare expression body `|x| E` is wrapped as `|x| { E }`
+            # (E ends at the first `,` or closing bracket at nesting depth 0)
+            after = pos + len(anchor)
+            k = after
+            while k < len(bb) and bb[k] in ' \t\n':
+                k += 1
+            if k < len(bb) and bb[k] != '{':
+                depth, e = 0, k
+                while e < len(bb):
+                    c = bb[e]
+                    if c in '([{':
+                        depth += 1
+                    elif c in ')]}':
+                        if depth == 0:
+                            break
+                        depth -= 1
+                    elif c == ',' and depth == 0:
+                        break
+                    e += 1
+                body = body[:k] + '{ ' + body[k:e].rstrip() + ' }' + body[e:]
+                self.rules.hit('R-closurebrace')
+            body = body[:pos] + new_header + body[after:]
             bb = X.blank_comments(body)
             self.rules.hit('closure-annotation')
         # entry
